@@ -57,6 +57,7 @@ def run(rep):
         for i, l in zip(idx, mo):
             rec = recs[i]
             steps = [p.split(';') for p in l.split(' | ')] if rec['trace'] else []
+            xt = xsd_type_of[rec['cls']]
             bad = None
             reported = set()
             for t, (code, d, miss) in zip(rec['trace'], steps):
